@@ -284,4 +284,43 @@ def bulkheadPre (s : BSt) (acq : Option Err) (canc : Bool × Option PR) (onFull 
     let s := if onFull.isSome && e.is Err.FULL then bOnFull s else s
     if !e.is Err.FULL && canc.1 then (canc.2, s) else (some (failureResult e), s)
 
+/-! ## circuitbreaker.executor and ratelimiter.executor
+
+The breaker itself and the limiter itself are the models of `Breaker.lean` / `Limiter.lean` (tied kernel by kernel); what is tied
+here is how the *executors* use them: admission before anything inside runs, the policy listener before the record (so that the
+state-change events a record causes come after `OnSuccess` / `OnFailure`), the result handed on unchanged. -/
+
+structure AdmitOps (σ : Type) where
+  tryV : σ → Bool                 -- `TryAcquirePermit()`
+  tryS : σ → σ
+  baseOnSuccess : σ → PR → σ      -- `BaseExecutor.OnSuccess`: the policy's `OnSuccess` listener
+  baseOnFailure : σ → PR → σ
+  recordSuccess : σ → σ
+  recordFailure : σ → PR → σ      -- `recordFailure(exec.CopyWithResult(result))`
+
+def breakerPre {σ : Type} (ops : AdmitOps σ) (s : σ) : Option PR × σ :=
+  if ops.tryV s then (none, ops.tryS s) else (some (failureResult Err.opened), ops.tryS s)
+def breakerOnSuccess {σ : Type} (ops : AdmitOps σ) (s : σ) (result : PR) : σ := ops.recordSuccess (ops.baseOnSuccess s result)
+def breakerOnFailure {σ : Type} (ops : AdmitOps σ) (s : σ) (result : PR) : PR × σ :=
+  (result, ops.recordFailure (ops.baseOnFailure s result) result)
+
+structure LimitOps (σ : Type) where
+  acquireV : σ → Option Err       -- `acquirePermitsWithMaxWait`: nil, `ErrExceeded`, or what the cancelled wait reports
+  acquireS : σ → σ
+  onExceeded : σ → σ
+  hasOnExceeded : Option Unit := some ()
+  innerV : σ → PR                 -- `innerFn(exec)`
+  innerS : σ → σ
+
+def errIsRate (e : Option Err) (_ : Unit) : Bool := match e with | some e => e.is Err.RATE | none => false
+
+/-- `ratelimiter.executor.Apply`: what is inside runs only after a permit was granted; a refusal fires the listener -/
+def limiterApply {σ : Type} (ops : LimitOps σ) (s : σ) : PR × σ :=
+  match ops.acquireV s with
+  | none => (ops.innerV (ops.acquireS s), ops.innerS (ops.acquireS s))
+  | some e =>
+    let s := ops.acquireS s
+    (failureResult e, if ops.hasOnExceeded.isSome && e.is Err.RATE then ops.onExceeded s else s)
+def failE (e : Option Err) : PR := match e with | some e => failureResult e | none => failureResult Err.rate
+
 end Failsafe.ExecBodies
